@@ -55,7 +55,7 @@ def gen(
     conds=(1.0, 1e2),
     info_kinds=("spd", "spd", "blockdiag", "diag"),
     world=(1.0,),
-    features=("parallel", "reversed", "permute", "ids", "multifixed", "custom", "rn_lm_offsets", "quat-signs", "lm_odo", "pure-translation-steps"),
+    features=("parallel", "reversed", "permute", "ids", "multifixed", "custom", "rn_lm_offsets", "quat-signs", "lm_odo", "pure-translation-steps", "near-identity-orientations"),
     fixed_mode="wellposed",
     rot_step=1.0,
     custom_flavour="ana",
@@ -76,6 +76,20 @@ def gen(
     pt_, pr_ = pt_ * pscale, pr_ * pscale
     cond = g.choice(list(conds))
     feats = {f: (f in features and g.boolean()) for f in ("parallel", "reversed", "permute", "ids", "multifixed", "custom", "rn_lm_offsets")}
+    # every absolute orientation within 1e-12..3e-8 rad of the identity, but not the identity (a platform that never turns,
+    # expressed in a frame aligned with it up to calibration residue): rotation terms that are tiny next to the translations
+    feats["near-identity-orientations"] = "near-identity-orientations" in features and base in ("se2", "se3") and g.choice([False, False, False, True])
+    tiny = feats["near-identity-orientations"]
+    if tiny:
+        pr_ = 0.0
+
+    def tiny_rotation():
+        a = rnd.choice([1.0, -1.0]) * 10.0 ** rnd.uniform(-12, -7.5)
+        if base == "se2":
+            return [a]
+        ax = g.unit_axis()
+        s_, c_ = math.sin(a / 2), math.cos(a / 2)
+        return [ax[0] * s_, ax[1] * s_, ax[2] * s_, c_]
 
     # ---- ground truth
     def rnd_pose(kind, spread):
@@ -86,6 +100,8 @@ def gen(
         return [rnd.uniform(-spread, spread) for _ in range(3)] + g.unit_quat(cls="generic", sign=rnd.random() < 0.5)
 
     truth = [rnd_pose(base, 3.0 * w)]
+    if tiny:
+        truth[0] = truth[0][: R.PDIM[base]] + tiny_rotation()
     parents = [None]
     tree = g.choice(["chain", "chain", "tree"])
     for i in range(1, npose):
@@ -94,6 +110,8 @@ def gen(
         if "pure-translation-steps" in features and base in ("se2", "se3") and rnd.random() < 0.25:
             # a translating platform: consecutive poses share their rotation exactly
             step = list(step[: R.PDIM[base]]) + list(R.identity(base)[R.PDIM[base]:])
+        elif tiny:
+            step = list(step[: R.PDIM[base]]) + tiny_rotation()
         if base in ("r2", "r3"):
             truth.append([a + b for a, b in zip(truth[par], step)])
         else:
